@@ -723,44 +723,111 @@ def _array_to_df(tree, gtree) -> dict:
 
 
 def _create_charges(tree):
+    """`create_charges` must feed the columns number / position_ver / position_hor from their own parameters.
+
+    The column mapping may be written as a dict display, `dict(k=v, ..)` or `dict(zip(KEYS, VALUES[, strict=..]))` with
+    KEYS / VALUES tuple or list displays of the same length; every name in it is resolved through single-assignment
+    locals and module-level literal constants (so the key tuple may live at module level)."""
     fn = find_func(tree, "create_charges", "Charge")
     params = {a.arg for a in fn.args.args + fn.args.kwonlyargs + fn.args.posonlyargs}
-    # a local name bound exactly once, to a parameter, stands for that parameter
+    sx = _charge_sym(tree)
+    # a local name bound exactly once, by a plain (annotated) assignment, stands for the assigned expression;
+    # every other kind of binding (tuple target, op=, walrus, loop / comprehension / with / except / match capture /
+    # import / nested def / nested parameter) makes the name opaque
     binds: dict[str, list] = {}
+    plain: dict[int, ast.AST] = {}
     for n in ast.walk(fn):
         if isinstance(n, ast.Assign):
             for t in n.targets:
-                for e in ast.walk(t):
-                    if isinstance(e, ast.Name):
-                        binds.setdefault(e.id, []).append(n.value if t is e else None)
-        elif isinstance(n, (ast.AnnAssign, ast.AugAssign, ast.NamedExpr)) and isinstance(n.target, ast.Name):
-            binds.setdefault(n.target.id, []).append(n.value if isinstance(n, ast.AnnAssign) else None)
-        elif isinstance(n, (ast.For, ast.comprehension)):
-            for e in ast.walk(n.target):
-                if isinstance(e, ast.Name):
-                    binds.setdefault(e.id, []).append(None)
+                if isinstance(t, ast.Name):
+                    plain[id(t)] = n.value
+        elif isinstance(n, ast.AnnAssign) and isinstance(n.target, ast.Name) and n.value is not None:
+            plain[id(n.target)] = n.value
+    for n in ast.walk(fn):
+        if isinstance(n, ast.Name) and isinstance(n.ctx, (ast.Store, ast.Del)):
+            binds.setdefault(n.id, []).append(plain.get(id(n)))
+        elif isinstance(n, (ast.MatchAs, ast.MatchStar)) and n.name is not None:
+            binds.setdefault(n.name, []).append(None)
+        elif isinstance(n, ast.MatchMapping) and n.rest is not None:
+            binds.setdefault(n.rest, []).append(None)
+        elif isinstance(n, ast.ExceptHandler) and n.name is not None:
+            binds.setdefault(n.name, []).append(None)
+        elif isinstance(n, (ast.Import, ast.ImportFrom)):
+            for al in n.names:
+                binds.setdefault((al.asname or al.name).split(".")[0], []).append(None)
+        elif isinstance(n, (ast.FunctionDef, ast.AsyncFunctionDef, ast.ClassDef)) and n is not fn:
+            binds.setdefault(n.name, []).append(None)
+        elif isinstance(n, ast.arguments) and n is not fn.args:
+            for x in n.posonlyargs + n.args + n.kwonlyargs + [y for y in (n.vararg, n.kwarg) if y is not None]:
+                binds.setdefault(x.arg, []).append(None)
+        elif isinstance(n, (ast.Global, ast.Nonlocal)):
+            for name in n.names:
+                binds.setdefault(name, []).append(None)
 
-    def param_of(v):
-        for _ in range(5):
+    def resolve(v):
+        """the expression a name stands for (single-assignment local, module-level literal constant), else the node"""
+        for _ in range(8):
             if not isinstance(v, ast.Name):
-                return None
+                return v
             if v.id in binds:
                 if len(binds[v.id]) != 1 or binds[v.id][0] is None:
-                    return None
+                    return v
                 v = binds[v.id][0]
                 continue
-            return v.id if v.id in params else None
+            if v.id in params:
+                return v
+            if v.id in sx.consts and v.id not in sx.funcs:
+                v = sx.consts[v.id]
+                continue
+            return v
+        return v
+
+    def param_of(v):
+        v = resolve(v)
+        return v.id if isinstance(v, ast.Name) and v.id in params and v.id not in binds else None
+
+    def builtin(f, name):
+        return isinstance(f, ast.Name) and f.id == name and name not in binds and name not in sx.local_defs
+
+    def pairs(n):
+        """[(key node, value node)] of a column mapping expression, or None"""
+        if isinstance(n, ast.Dict):
+            if any(k is None for k in n.keys):
+                return [(None, None)]                                     # `**other` inside the display: opaque
+            return list(zip(n.keys, n.values))
+        if isinstance(n, ast.Call) and builtin(n.func, "dict"):
+            if not n.args and n.keywords and all(k.arg is not None for k in n.keywords):
+                return [(ast.Constant(value=k.arg), k.value) for k in n.keywords]
+            if len(n.args) == 1 and not n.keywords:
+                z = resolve(n.args[0])
+                if (isinstance(z, ast.Call) and builtin(z.func, "zip") and len(z.args) == 2
+                        and all(k.arg == "strict" for k in z.keywords)):
+                    ks, vs = resolve(z.args[0]), resolve(z.args[1])
+                    if not (isinstance(ks, (ast.Tuple, ast.List)) and isinstance(vs, (ast.Tuple, ast.List))):
+                        return [(None, None)]
+                    if any(isinstance(e, ast.Starred) for e in ks.elts + vs.elts) or len(ks.elts) != len(vs.elts):
+                        fail(n, "create_charges: dict(zip(keys, values)) with displays of different lengths")
+                    return list(zip(ks.elts, vs.elts))
+                return [(None, None)]
         return None
 
-    dicts = [n for n in ast.walk(fn) if isinstance(n, ast.Dict)]
     want = {"number": "particles_per_cluster", "position_ver": "init_ver_position", "position_hor": "init_hor_position"}
-    for d in dicts:
-        got = {}
-        for k, v in zip(d.keys, d.values):
-            if isinstance(k, ast.Constant) and k.value in want:
+    for d in ast.walk(fn):
+        pr = pairs(d)
+        if pr is None:
+            continue
+        got, opaque = {}, False
+        for k, v in pr:
+            k = resolve(k) if k is not None else None
+            if k is None or not isinstance(k, ast.Constant):
+                opaque = True                                             # a key the translator cannot read
+                continue
+            if k.value in want:
+                if k.value in got:
+                    fail(d, f"create_charges: column {k.value!r} is given twice")
                 got[k.value] = param_of(v)
         if got:
-            if got != want:
+            if got != want or opaque:
                 fail(d, "create_charges must feed number / position_ver / position_hor from their own parameters")
             return
     fail(fn, "create_charges: the column dictionary was not found")
